@@ -1,8 +1,8 @@
 (* GenEq/Fb_copy_once_from.v — tie T1: the definition regenerated from /repo (Gen/FbGen.v, untracked, rebuilt on every run by rs2v + vlib/translate.py)
    equals the model definition the theorems are about. *)
-From FB Require Import Sem.Base Model.Fb GenEq.Tac.
+From FB Require Import Sem.Base Model.Fb Facets.Fb GenEq.Tac.
 From FB Require Gen.FbGen.
 Open Scope Z_scope.
 
-Lemma gen_eq : forall chk RS (R : Reader RS) w, FbGen.copy_once_from chk R w = Fb.copy_once_from chk R w.
+Lemma gen_eq : forall SIZE chk RS (R : Reader RS) w, Inv SIZE (fst w) -> FbGen.copy_once_from SIZE chk R w = Fb.copy_once_from chk R w.
 Proof. gen_eq. Qed.
